@@ -110,6 +110,12 @@ def explore(ctx):
             parts = base.split("_")
             if uni.get(orig):
                 want = chr(uni[orig])
+            elif _suffix and len(parts) > 1 and all((pn + "." + _suffix) in uni for pn in parts):
+                # the ligature's parts exist WITH the suffix (f.liga, i.liga): ufo2ft joins their production names
+                # ("uni0066.liga_uni0069.liga"), which keeps suffixes and parts as the property says but is not an
+                # AGL-decodable ligature name (observation O11); nothing to demand here
+                ctx.klass("suffixed ligature parts present (name joined from suffixed parts, O11)")
+                continue
             elif len(parts) > 1 and all(uni.get(pn) for pn in parts):
                 want = "".join(chr(uni[pn]) for pn in parts)
             else:
